@@ -55,7 +55,9 @@ var c05 *c05state
 
 func (s *c05state) allEnded() bool {
 	for _, it := range s.items {
-		if it.begun && !it.ended {
+		// a task that was only queued when the stop began is not "work that was running": the statement does not
+		// demand that the stop waits for it, should it still begin (observed: it can, with a cancelled context)
+		if it.begun && !it.ended && it.kind != "task-late" {
 			return false
 		}
 	}
@@ -65,7 +67,7 @@ func (s *c05state) allEnded() bool {
 func (s *c05state) pending() string {
 	var out []string
 	for _, it := range s.items {
-		if it.begun && !it.ended {
+		if it.begun && !it.ended && it.kind != "task-late" {
 			out = append(out, it.kind)
 		}
 	}
@@ -274,6 +276,9 @@ func VerifC05(p C05Params) *vsched.Scenario {
 			return
 		}
 		for _, it := range s.items {
+			if it.kind == "task-late" {
+				continue // queued inside the explored window, right before the stop is triggered
+			}
 			s.launch(s.m, it)
 			vsched.Quiesce() // one after the other: deterministic set-up
 			if !it.begun {
@@ -293,7 +298,7 @@ func VerifC05(p C05Params) *vsched.Scenario {
 		}
 		vsched.Quiesce()
 		for _, it := range s.items {
-			if !it.begun {
+			if !it.begun && it.kind != "task-late" {
 				verifFail("harness", "item-not-begun", "item %s did not begin during set-up", it.kind)
 				return
 			}
@@ -302,6 +307,14 @@ func VerifC05(p C05Params) *vsched.Scenario {
 
 		// ---- the explored window: stopping races with the items finishing ----
 		vsched.Explore(true)
+		for _, it := range s.items {
+			if it.kind == "task-late" {
+				// a task that is queued but has not begun when the stop begins: it may be anywhere between the queue
+				// and its execution (waiting for its turn, for a time slot, ...), and it may or may not run
+				body := s.itemBody(it)
+				s.m.NewTask("tl", func(ctx context.Context, _ *Task) error { return body(ctx) }).Queue()
+			}
+		}
 		var err error
 		if p.Trigger == "shutdown" {
 			err = Shutdown()
